@@ -17,6 +17,10 @@ type BatchedPrivateIssuer struct {
 }
 
 func NewBatchedPrivateIssuer(key *oprf.PrivateKey) *BatchedPrivateIssuer {
+	// oprf.PrivateKey computes and caches its public key on first use, without
+	// synchronisation. Do that here, before the issuer can be shared between goroutines.
+	key.Public()
+
 	return &BatchedPrivateIssuer{
 		tokenKey: key,
 	}
